@@ -104,6 +104,27 @@ def steer_population(rnd, date):
     return df, kinds
 
 
+def mixed_household(rnd, date, wage):
+    """a couple with a child sharing a flat with an unrelated adult without income (two needs units)"""
+    p = popgen.Pop(rnd, date)
+    h = p.new_hh()
+    a, b = p.couple(h, married=True, a1=35, a2=33)
+    p.child(h, [a, b], alter=rnd.choice([3, 8, 12]))
+    c = p.person(h, 41)
+    df = p.frame(relabel=False, shuffle=False).copy()
+    for col in ("bruttolohn_m", "eink_selbst_m", "kapitaleink_brutto_m", "eink_vermietung_m", "sonstig_eink_m", "priv_rente_m",
+                "vermögen_bedürft", "kind_unterh_erhalt_m"):
+        df[col] = 0.0
+    df["rentner"] = False
+    df["selbstständig"] = False
+    df.loc[df["p_id"] == a["p_id"], "bruttolohn_m"] = float(wage)
+    df["bruttokaltmiete_m_hh"] = 900.0
+    df["heizkosten_m_hh"] = 120.0
+    df["wohnfläche_hh"] = 95.0
+    df["bewohnt_eigentum_hh"] = False
+    return df
+
+
 def system_search(run, rnd, dates, n_pops):
     stats = {"alg2": 0, "kiz": 0, "wohngeld": 0, "grunds": 0, "pops": 0}
     T = ["arbeitsl_geld_2_m_bg", "kinderzuschl_m_bg", "wohngeld_m_wthh", "grunds_im_alter_m_eg", "bg_id", "wthh_id", "eg_id",
@@ -111,8 +132,9 @@ def system_search(run, rnd, dates, n_pops):
          "arbeitsl_geld_2_eink_m_bg", "arbeitsl_geld_2_regelbedarf_m_bg", "_kinderzuschl_nach_vermög_check_m_bg",
          "wohngeld_anspruchshöhe_m_bg"]
     for date in dates:
-        for k in range(n_pops):
-            df, kinds = steer_population(rnd, date)
+        pops = [steer_population(rnd, date) for _ in range(n_pops)]
+        pops += [(mixed_household(rnd, date, w), ["mixed household"]) for w in range(1200, 2700, 100)]
+        for df, kinds in pops:
             ok, res = run.attempt(f"simulate at {date}", popgen.simulate, df, date, targets=T,
                                   replay={"date": date, "data": popgen.frame_to_json(df)})
             if not ok:
@@ -209,6 +231,25 @@ def rule_level_search(run):
     except TypeError as ex:  # a rule's signature changed: the directed search no longer applies
         run.extra["rule_level_search"] = f"not applicable: {ex}"
         return
+    # the part-household id is built from BOTH flags: hh_id*100 + (wohngeld_vorrang_bg or wohngeld_kinderzuschl_vorrang_bg)
+    # (hypothesis `hall` of alg2_wohngeld_exclusive; Lean model: Groupings.wthhId, theorem wthhId_spec)
+    import numpy as np
+    from _gettsim.groupings import wthh_id_numpy
+    try:
+        for hh, v1, v2 in itertools.product([0, 3], B, B):
+            for hh2, w1, w2 in itertools.product([0, 3], B, B):
+                ids = wthh_id_numpy(np.asarray([hh, hh2]), np.asarray([v1, w1]), np.asarray([v2, w2]))
+                n += 1
+                same = ids[0] == ids[1]
+                want = hh == hh2 and ((v1 or v2) == (w1 or w2))
+                if bool(same) != want:
+                    run.hit({"kind": "wthh-id-not-by-both-flags"},
+                            f"wthh_id_numpy gives ids {ids.tolist()} for households {hh},{hh2} with flags "
+                            f"(wohngeld_vorrang, wohngeld_kinderzuschl_vorrang) = {(v1, v2)} and {(w1, w2)}",
+                            {"hh": [hh, hh2], "flags": [[v1, v2], [w1, w2]], "observed": ids.tolist()})
+    except TypeError as ex:
+        run.hit({"kind": "wthh-id-not-by-both-flags"},
+                f"wthh_id_numpy no longer takes both priority flags: {ex}", {})
     run.evaluations += n
     run.distinct.add(common.digest(["rule-level", n]))
     run.extra["rule_level_search"] = f"{n} combinations of the real rule functions"
